@@ -134,7 +134,9 @@ EXCLUDE = {
 }
 
 SCHEMES = ["", "//", "http://", "HTTPS://", "ftp://"]
-HOSTS = ["a.com", "WWW.A.Com", "xn--tlrama-bvab.fr", "télérama.fr", "a.co.uk", "127.0.0.1", "localhost"]
+HOSTS = ["a.com", "WWW.A.Com", "xn--tlrama-bvab.fr", "télérama.fr", "a.co.uk", "127.0.0.1", "localhost",
+         # labels that only LOOK like punycode of something: not the IDNA spelling of any name, so they denote themselves
+         "xn--google-.com", "xn--cole-9oa.fr", "xn--strae-oqa.de", "télérama.xn--mnchen-3ya.de", "xn--tlrama-bvab.xn--zzzz.de"]
 PORTS = ["", ":80", ":443", ":8080"]
 
 
